@@ -47,6 +47,11 @@ def run(e: Engine, rep: Report):
     p3(e, rep)
     p4(e, rep)
     p5(e, rep)
+    rep.rule('P6', 'no policy memoises (table MEMOISERS) a function whose '
+             'result contains lists / dicts: recipient lists are never '
+             'shared between messages')
+    rep.tables.add('c16.MEMOISERS')
+    p6(e, rep)
     rep.floor('P1', 5, 'split obligations')
 
 
@@ -637,3 +642,81 @@ def p5(e: Engine, rep: Report):
         'an untouched envelope runs through the remaining policies',
         'when a policy returns nothing the envelope is not handed to the '
         'later policies', reason='else: recurse(current, i+1)', loc=f.loc())
+
+
+# --------------------------------------------------------------------- P6
+MEMOISERS = {'lru_cache', 'cache', 'cached_property', 'memoize', 'memoized'}
+
+
+def p6(e: Engine, rep: Report):
+    """Every output envelope owns its recipient list (P2).  A policy that
+    memoises a function returning lists hands the SAME list objects to the
+    envelopes of different messages: an in-place change made for one message
+    (forwarding assigns by index, storage deletes delivered positions) shows
+    up in the others."""
+    from ..kinds import Kinds
+    K = Kinds(e)
+    n = 0
+    for m in e.p.modules.values():
+        if not m.name.startswith('slimta.policy'):
+            continue
+        for f in [f for f in e.p.functions.values() if f.module is m]:
+            for x in ast.walk(f.node):
+                wrapped = None
+                if isinstance(x, ast.Call) and isinstance(x.func, ast.Call) \
+                        and ast.unparse(x.func.func).rpartition('.')[2] in \
+                        MEMOISERS and x.args:
+                    wrapped = x.args[0]          # lru_cache(..)(self.f)
+                elif isinstance(x, ast.Call) and \
+                        ast.unparse(x.func).rpartition('.')[2] in MEMOISERS \
+                        and x.args and isinstance(
+                            x.args[0], (ast.Attribute, ast.Name)):
+                    wrapped = x.args[0]          # cache(self.f)
+                if wrapped is None:
+                    continue
+                nm = wrapped.attr if isinstance(wrapped, ast.Attribute) \
+                    else wrapped.id
+                tgt = None
+                if f.cls is not None:
+                    tgt = e.p.lookup_method(f.cls.qname, nm)
+                tgt = tgt or e.p.functions.get(m.name + '.' + nm)
+                n += 1
+                rep.evaluations += 1
+                _p6_judge(e, rep, K, tgt, f, x, nm)
+        for f in [f for f in e.p.functions.values() if f.module is m]:
+            for d in getattr(f.node, 'decorator_list', []):
+                dn = d.func if isinstance(d, ast.Call) else d
+                if ast.unparse(dn).rpartition('.')[2] in MEMOISERS:
+                    n += 1
+                    rep.evaluations += 1
+                    _p6_judge(e, rep, K, f, f, d, f.name)
+    rep.evaluations += 1
+    if n == 0:
+        rep.ok('P6', 'slimta.policy', 'no policy memoises a function',
+               reason='no lru_cache / cache / cached_property in '
+               'slimta.policy.*', nontrivial=False)
+
+
+def _p6_judge(e, rep, K, tgt, f, site, nm):
+    from ..kinds import show
+    if tgt is None:
+        rep.error('cannot resolve the memoised function `%s` in %s'
+                  % (nm, f.qname))
+        return
+    kk = K.return_kinds(Ctx(tgt, tgt.cls.qname if tgt.cls else None))
+
+    def mutable(k):
+        if k in ('List', 'Dict', 'Set'):
+            return True
+        if isinstance(k, tuple) and k[0] == 'tuple':
+            return any(mutable(y) for ks2 in k[1] for y in ks2)
+        return False
+    bad = any(mutable(k) for k in kk)
+    rep.check(not bad, 'P6', f.qname,
+              'memoised `%s` returns nothing mutable' % nm,
+              '`%s` is memoised and returns %s: the list objects it built '
+              'once are handed to the envelopes of every later message '
+              'with the same input - recipient lists are shared between '
+              'messages, an in-place change for one shows up in the '
+              'others' % (nm, show(kk)), loc=f.loc(site),
+              reason='returns ' + show(kk))
